@@ -4,6 +4,7 @@ pub mod corpus;
 pub mod gen;
 pub mod log;
 pub mod mspec;
+pub mod mutate;
 pub mod ops;
 pub mod optable;
 pub mod rng;
